@@ -136,20 +136,21 @@ impl UiTokenCollection {
         let ui_start_position   = self.get_position(position_start);
         let ui_end_position     = self.get_position(position_end);
 
-        let mut ui_start_index: i8  = -1;
+        /* The index is not limited to 127, a long line has more tokens than that */
+        let mut ui_start_index: Option<usize> = None;
 
         for (index, ui_token) in self.iter().enumerate() {
             if ui_token.start == ui_start_position {
-                ui_start_index = index as i8;
+                ui_start_index = Some(index);
                 break;
             }
         }
 
-        if ui_start_index > -1 {
-            for (index, ui_token) in self.tokens.iter().enumerate() {
+        if let Some(ui_start_index) = ui_start_index {
+            for (index, ui_token) in self.tokens.iter().enumerate().skip(ui_start_index) {
                 if ui_token.end == ui_end_position {
-                    self.tokens.drain(ui_start_index as usize..index + 1);
-                    self.tokens.insert(ui_start_index as usize, UiToken {
+                    self.tokens.drain(ui_start_index..index + 1);
+                    self.tokens.insert(ui_start_index, UiToken {
                         start: ui_start_position as usize,
                         end: ui_end_position as usize,
                         ui_type: new_type
